@@ -364,6 +364,64 @@ class RiemannSelect(Obligation):
                 cx.ge('%s selected: %s wave is a rarefaction, so F(p_%s) >= 0 (p* <= p_%s)' % (pat, side, side, side), F, 0)
 
 
+class RiemannFanPoint(Obligation):
+    """assembled ideal-gas Riemann fields at a user point INSIDE a rarefaction fan (through the public solver, so with the
+    arguments the driver really passes): positive, and on the expansion side of the fan's outer state -- pressure and density
+    not above it, velocity on the side the fan accelerates the gas to"""
+
+    def __init__(self, gl, gr, only):
+        self.gl, self.gr, self.only = gl, gr, only
+        self.id = 'C17.riemann.fanpoint.%s.gl=%s.gr=%s' % (only, gl, gr)
+        self.modules = R.modules()
+        self.extra_shim = dict(R.shim_extra_point(), bisect=R.bisect_only(only))
+        self.functions = [H.mod(R.RM).RiemannIGEOS.driver, H.mod(R.EP).IGEOS_Solver._run, H.mod(R.UM).rho_p_u_rarefaction]
+        self.bounds = 'left/right states, membrane position, time and ONE user point symbolic; gamma pair fixed (unequal); wave pattern %s; every region = path' % only
+        self.skip_validation = True
+        self.max_paths = 1500
+        self.timeout_s = 20
+        self.budget_s = 300
+        self.cost = 5
+
+    def build(self, mk):
+        out = R.run_point(mk, self.gl, self.gr)
+        if Mode.symbolic(mk) and out['pattern'] != self.only:
+            from symx.engine import PathAbort
+            raise PathAbort()
+        pat = out['pattern']
+        d = {k: out[k] for k in ('density', 'pressure', 'velocity', 'pl', 'rl', 'ul', 'pr', 'rr', 'ur')}
+        V = out['Vregs']
+        xd0, t = out['xd0'], out['t']
+        d['x'] = mk('x')
+        d['_pattern'] = pat
+        if pat[0] == 'R':
+            d['L_head'], d['L_tail'] = xd0 + t * V[0], xd0 + t * V[1]
+        if pat[2] == 'R':
+            d['R_tail'], d['R_head'] = xd0 + t * V[-2], xd0 + t * V[-1]
+        return d
+
+    def domain(self, V):
+        # generic position of the data (the equal-pressure / equal-density aliases only multiply the paths)
+        return R.domain(V) + [T.ne(V('pl'), V('pr')), T.ne(V('rl'), V('rr'))]
+
+    def claims(self, cx):
+        pat = cx['_pattern']
+        x, p, rho, u = cx['x'], cx['pressure'], cx['density'], cx['velocity']
+        if pat[0] == 'R':
+            w = ((x > cx['L_head']) & (x < cx['L_tail'])) if cx.symbolic else bool(cx['L_head'] < x < cx['L_tail'])
+            cx.gt('left fan: density > 0', rho, 0, when=w)
+            cx.gt('left fan: pressure > 0', p, 0, when=w)
+            cx.le('left fan: pressure not above the left state', p, cx['pl'], when=w)
+            cx.le('left fan: density not above the left state', rho, cx['rl'], when=w)
+            cx.ge('left fan: velocity not below the left state', u, cx['ul'], when=w)
+        if pat[2] == 'R':
+            w = ((x > cx['R_tail']) & (x < cx['R_head'])) if cx.symbolic else bool(cx['R_tail'] < x < cx['R_head'])
+            cx.gt('right fan: density > 0', rho, 0, when=w)
+            cx.gt('right fan: pressure > 0', p, 0, when=w)
+            cx.le('right fan: pressure not above the right state', p, cx['pr'], when=w)
+            cx.le('right fan: density not above the right state', rho, cx['rr'], when=w)
+            cx.le('right fan: velocity not above the right state', u, cx['ur'], when=w)
+
+
 def obligations(tier):
     obs = []
     for g in (1, 2, 3):
@@ -382,6 +440,9 @@ def obligations(tier):
         obs.append(RiemannMono(gam))
     for gl, gr in (R.GAMMA_PAIRS_QUICK if tier == 'quick' else R.GAMMA_PAIRS_FULL):
         obs.append(RiemannSelect(gl, gr))
+        if gl != gr:
+            for pat in ('RCR', 'SCR', 'RCS'):
+                obs.append(RiemannFanPoint(gl, gr, pat))
         for pat in ('SCS', 'SCR', 'RCS', 'RCR'):
             obs.append(RiemannAdm(gl, gr, pat))
     return obs
